@@ -73,12 +73,13 @@ def _install_z3_counter():
     orig = z3.Solver.check
 
     def chk(self, *a):
-        t = time.time()
+        # perf_counter: CrossHair models time.time()/monotonic()/process_time() as symbolic values, perf_counter is left alone
+        t = time.perf_counter()
         try:
             return orig(self, *a)
         finally:
             _STATS['queries'] += 1
-            _STATS['solver_s'] += time.time() - t
+            _STATS['solver_s'] += time.perf_counter() - t
     z3.Solver.check = chk
     z3.Solver._vf_wrapped = True
 
@@ -96,9 +97,9 @@ def run_ch(task):
         max_uninteresting_iterations=10 ** 9))
     q0, s0 = _STATS['queries'], _STATS['solver_s']
     p0 = mod._P[0] if hasattr(mod, '_P') else 0
-    t0 = time.time()
+    t0 = time.perf_counter()
     msgs = list(run_checkables(analyze_function(fn, opts)))
-    res = {'id': task['id'], 'kind': 'ch', 'wall_s': round(time.time() - t0, 3),
+    res = {'id': task['id'], 'kind': 'ch', 'wall_s': round(time.perf_counter() - t0, 3),
            'queries': _STATS['queries'] - q0, 'solver_s': round(_STATS['solver_s'] - s0, 3),
            'paths': (mod._P[0] - p0) if hasattr(mod, '_P') else None, 'messages': []}
     state = None
